@@ -338,6 +338,11 @@ def _u6(run: Run) -> None:
     expr = _op("add", _op("mul", _op("mul", _num(5), k), q1), _op("mul", x, _op("pow", q2, _num(2))))
     kinds = {"q1": "SymQuantity", "q2": "SymQuantity", "kilo": "Prefix"}
 
+    class _NewQ:
+
+        def __init__(self, scale_factor, dimension):
+            self.scale_factor, self.dimension = scale_factor, dimension
+
     class R(PyReader):
 
         def class_token(self, v):
@@ -366,7 +371,18 @@ def _u6(run: Run) -> None:
                 return _app("evalf" + (f"[{opts}]" if opts else ""), base)
             return NotImplemented
 
+        def is_instance(self, v, names, n):
+            if isinstance(v, _T) and v.op == "var" and v.val in kinds:
+                return kinds[v.val] in names or (kinds[v.val] == "SymQuantity" and "Quantity" in names)
+            if isinstance(v, _NewQ):
+                return "SymQuantity" in names or "Quantity" in names
+            return super().is_instance(v, names, n)
+
         def hook_attr(self, base, attr, n):
+            if isinstance(base, _NewQ) and attr in ("scale_factor", "dimension"):
+                return getattr(base, attr)  # a number wrapped as Quantity(number, dimension=d) has that number as its (SymPy, gram-based) scale factor
+            if isinstance(base, _T) and base.op == "var" and kinds.get(base.val) == "SymQuantity" and attr == "dimension":
+                return _var(f"dim({base.val})")
             if isinstance(base, _T) and base.op == "var" and kinds.get(base.val) == "Prefix" and attr == "scale_factor":
                 return _var("factor(kilo)")
             if isinstance(base, _T) and base.op == "var" and kinds.get(base.val) == "SymQuantity" and attr == "scale_factor":
@@ -379,6 +395,13 @@ def _u6(run: Run) -> None:
                 v = self.ev(n.args[0], env, fns)
                 if isinstance(v, _T) and v.op == "var" and kinds.get(v.val) == "SymQuantity":
                     return _var(f"si({v.val})")
+            if name == "isinstance" and len(n.args) == 2 and "isinstance" not in env:
+                return self.is_instance(self.ev(n.args[0], env, fns), self.class_names(n.args[1]), n)
+            if name == "Quantity" and isinstance(n.func, ast.Name) and name not in self.functions and name not in env and len(n.args) == 1:
+                v = self.ev(n.args[0], env, fns)
+                kw_ = {k_.arg: self.ev(k_.value, env, fns) for k_ in n.keywords if k_.arg}
+                if isinstance(v, _T) and set(kw_) <= {"dimension"} and not any(_mentions(v, nm) for nm in kinds):
+                    return _NewQ(v, kw_.get("dimension"))
             return NotImplemented
 
     for evaluate, options in ((False, {}), (True, {}), (True, {"n": 5})):
